@@ -33,9 +33,16 @@ class Probe:
 
 def app_messages(kinds: tuple[str, ...]) -> list[Any]:
     out = []
-    for i, k in enumerate(kinds):
+    expanded: list[str] = []
+    for k in kinds:
+        if "*" in k:  # "ST*66000": a long session (the responder's nonce passes 2^16)
+            base, n = k.split("*")
+            expanded += [base] * int(n)
+        else:
+            expanded.append(k)
+    for i, k in enumerate(expanded):
         if k == "ST":
-            out.append(mk("SensorStateResponse", key=10 + i, state=float(i) + 0.5))
+            out.append(mk("SensorStateResponse", key=10 + i, state=float(i % 1024) + 0.5))
         elif k == "PR":
             out.append(mk("PingRequest"))
         elif k == "TX":
